@@ -1019,6 +1019,8 @@ class Interp:
             raise Unsupported('iteration over a symbolic map without loop contract')
         if isinstance(it, _SymRange):
             raise Unsupported('symbolic range')
+        if isinstance(it, _LazyEnum):
+            raise Unsupported('enumerate over a symbolic list without loop contract')
         if isinstance(it, SV) and it.kind in ('str', 'intlist'):
             raise Unsupported('iteration over a symbolic string/list without loop contract')
         if isinstance(it, SV) and it.kind == 'idl':
@@ -1542,11 +1544,16 @@ class Interp:
                     return m
                 if m.kind == 'classmethod':
                     return Bound(o.cls, m)
+                w = self.decorated(m)            # a user-defined decorator replaces the method by what it returns
+                if w is not None and w is not m and m.qualname not in self.contracts:
+                    return Bound(o, w) if isinstance(w, (Closure, PyFunc)) else w
                 return Bound(o, m)
             for c in o.cls.mro():
                 if name in c.class_attrs:
                     return self.eval(c.class_attrs[name], Env(), c.module)
             raise SymRaise('AttributeError', name)
+        if isinstance(o, (PyFunc, Closure)) and name == '__name__':
+            return o.node.name if hasattr(o.node, 'name') else '<lambda>'
         if isinstance(o, PyClass):
             m = o.find_method(name)
             if m is not None:
@@ -1586,6 +1593,12 @@ class Interp:
 
     def e_Call(self, e, env, module, fn):
         # super() needs the lexical class
+        if isinstance(e.func, ast.Name) and e.func.id == 'super' and len(e.args) == 2:
+            c0 = self.eval(e.args[0], env, module, fn)
+            o0 = self.eval(e.args[1], env, module, fn)
+            if isinstance(c0, PyClass) and isinstance(o0, Obj):
+                return _Super(o0, c0)
+            raise Unsupported('super(cls, obj) with these arguments')
         if isinstance(e.func, ast.Name) and e.func.id == 'super' and not e.args:
             cls = getattr(fn, 'cls', None) or getattr(fn, 'cls_ctx', None)
             selfv = env.get(self.first_param(fn, env))
@@ -1734,6 +1747,8 @@ class Interp:
         if isinstance(f, PyClass):
             return self.construct(f, args, kwargs)
         if isinstance(f, Bound):
+            if isinstance(f.func, Closure):
+                return self.call_closure(f.func, [f.selfv] + list(args), kwargs)
             return self.call_function(f.func, [f.selfv] + list(args), kwargs)
         if isinstance(f, PyFunc):
             return self.call_function(f, args, kwargs)
@@ -1768,6 +1783,26 @@ class Interp:
         if c is not None and f.qualname not in self.inline:
             return c.apply(self, self.ctx, list(args), kwargs)
         return self.run_function(f, args, kwargs)
+
+    def decorated(self, func):
+        """the callable a user-defined decorator turns `func` into (None when the method has no such decorator)"""
+        decs = [d for d in getattr(func.node, 'decorator_list', [])
+                if not (isinstance(d, ast.Name) and d.id in ('staticmethod', 'classmethod', 'property', 'abstractmethod', 'override', 'cache', 'cached_property'))
+                and not (isinstance(d, ast.Attribute) and d.attr in ('setter', 'getter'))]
+        if not decs or func.cls is None:
+            return None
+        key = id(func)
+        cache = self.__dict__.setdefault('_decorated', {})
+        if key not in cache:
+            w = func
+            for d in reversed(decs):
+                env = Env()
+                for n, m in func.cls.methods.items():          # the class namespace at decoration time
+                    env.vars[n] = m
+                dv = self.eval(d, env, func.cls.module, None)
+                w = self.call(dv, [w], {})
+            cache[key] = (func, w)
+        return cache[key][1]
 
     def call_function(self, func, args, kwargs):
         q = func.qualname
@@ -2265,7 +2300,14 @@ def _b_frozendict(it, args, kw):
     return d
 
 
+class _LazyEnum:
+    def __init__(self, seq):
+        self.seq = seq
+
+
 def _b_enumerate(it, args, kw):
+    if args and isinstance(args[0], SV) and args[0].kind in ('plist', 'plist_rev', 'idl', 'intlist'):
+        return _LazyEnum(args[0])              # only a loop under contract can run over it
     return [(i, x) for i, x in enumerate(it.iterate(args[0]))]
 
 
@@ -2373,6 +2415,17 @@ class _LazyMap:
 class _LazyZip:
     def __init__(self, keys, values, strict, listed=False, rev=False):
         self.keys, self.values, self.strict, self.listed, self.rev = keys, values, strict, listed, rev
+
+
+def _b_getattr(it, args, kw):
+    if len(args) >= 2 and isinstance(args[1], str):
+        try:
+            return it.getattr(args[0], args[1])
+        except SymRaise:
+            if len(args) == 3:
+                return args[2]
+            raise
+    raise Unsupported('getattr with a symbolic name')
 
 
 def _b_map(it, args, kw):
@@ -2519,7 +2572,7 @@ def _b_id(name):
 BUILTINS = {n: Builtin(n, f) for n, f in {
     'isinstance': _b_isinstance, 'len': _b_len, 'tuple': _b_tuple, 'list': _b_list, 'set': _b_set, 'dict': _b_dict,
     'enumerate': _b_enumerate, 'sorted': _b_sorted, 'vars': _b_vars, 'any': _b_any, 'all': _b_all, 'range': _b_range,
-    'reversed': _b_reversed, 'zip': _b_zip, 'map': _b_map, 'str': _b_str, 'repr': _b_str, 'max': _b_max, 'print': _b_print, 'type': _b_type,
+    'reversed': _b_reversed, 'zip': _b_zip, 'map': _b_map, 'getattr': _b_getattr, 'str': _b_str, 'repr': _b_str, 'max': _b_max, 'print': _b_print, 'type': _b_type,
     'frozenset': _b_set, 'pow': _b_pow, 'bytes': _b_bytes, 'sum': _b_sum,
 }.items()}
 for _n in ('int', 'bool', 'bytes', 'min', 'sum', 'map', 'open', 'hash', 'id', 'getattr', 'setattr', 'hasattr', 'iter', 'next'):
